@@ -81,7 +81,15 @@ def _dag(rng, n):
             return bases, anc
 
 
+EQ_MODES = [None, None, None, None, None, None, None, 'true', 'false', 'class']
+FALSY = [None, None, None, None, None, 'bool', 'len']
+
+
 def gen_ctrl(rng):
+    """Twin-side history over two worlds.  The generator keeps a conservative picture of
+    what is certainly true on the real worlds: on[c] = slots (world, entity) component c is
+    certainly attached to; own[k] = (world, entity) of controller k's latest delivered
+    on_add; pend[j] = on_add notifications waiting in world j."""
     nct = rng.randint(2, 5)
     nkt = rng.randint(1, 3)
     npt = rng.randint(1, 3)
@@ -90,34 +98,31 @@ def gen_ctrl(rng):
     pb, panc = _dag(rng, npt)
     ne = rng.randint(1, 4)
     ents = list(range(1, ne + 1))
-    nops = rng.randint(4, 22)
-    # half of the cases keep coming back to one controller: the same reference is read again
-    # and again while its entity is changed behind its back (stale-state bugs)
+    two = rng.random() < 0.45                 # the second world takes part
     focus_mode = rng.random() < 0.55
-    if focus_mode:
-        nops = rng.randint(10, 26)
+    nops = rng.randint(10, 26) if focus_mode else rng.randint(4, 22)
     comps = []
     for _ in range(rng.randint(12, 22) if focus_mode else rng.randint(6, 16)):
-        if rng.random() < 0.45:
-            comps.append(['k', rng.randrange(nkt)])
-        else:
-            comps.append(['c', rng.randrange(nct)])
-    nplain = rng.randint(0, 2)
-    comps += [['plain', 0]] * nplain
+        comps.append(['k', rng.randrange(nkt)] if rng.random() < 0.45 else
+                     ['c', rng.randrange(nct)])
+    comps += [['plain', 0]] * rng.randint(0, 2)
     procs = [rng.randrange(npt) for _ in range(rng.randint(1, 4))]
-    fpt = rng.choice(procs)             # the processor type the focus controller keeps reading
+    fpt = rng.choice(procs)
     if focus_mode:
         procs += [fpt] * rng.randint(1, 2)
-    # class-level priorities that differ along the hierarchy, instance-level ones on top
     pprio = [rng.choice([None, -2, -1, 0, 1, 2]) for _ in range(npt)]
     piprio = [rng.choice([-2, -1, 1, 2]) if rng.random() < 0.35 else None for _ in procs]
+    peq = [rng.choice(EQ_MODES) for _ in range(npt)]
+    pfalsy = [rng.choice(FALSY) for _ in range(npt)]
+    plist = list(range(len(procs)))
+    alltypes = [CT0 + i for i in range(nct)] + [KT0 + i for i in range(nkt)]
 
     def tyid(c):
         kind, i = comps[c]
         return KT0 + i if kind == 'k' else (CT0 + i if kind == 'c' else KT0 - 1)
 
     def issub(u, t):
-        if u >= KT0 and t >= KT0 and u < PT0 and t < PT0:
+        if KT0 <= u < PT0 and KT0 <= t < PT0:
             return (t - KT0) in kanc[u - KT0]
         if u < KT0 - 1 and t < KT0 - 1:
             return t in canc[u]
@@ -126,29 +131,53 @@ def gen_ctrl(rng):
     unused = [i for i, c in enumerate(comps) if c[0] != 'plain']
     plain_unused = [i for i, c in enumerate(comps) if c[0] == 'plain']
     rng.shuffle(unused)
-    where, delivered, pending = {}, {}, set()
-    delivered_ent = {}
-    enabled = True
-    ops = []
-    alltypes = [CT0 + i for i in range(nct)] + [KT0 + i for i in range(nkt)]
-
-    def detach_type(e, pred):
-        for c in list(where):
-            if where[c] == e and pred(tyid(c)):
-                del where[c]
-
-    def attach(e, c):
-        t = tyid(c)
-        detach_type(e, lambda u: u == t)
-        where[c] = e
-        if comps[c][0] == 'k':
-            delivered[c] = enabled
-
     used = []
+    on, own = {}, {}
+    pend = {1: [], 2: []}
+    enabled = {1: True, 2: True}
+    pendel = set()
+    ops = []
+
+    def emit(j, o):
+        ops.append(o if j == 1 else ['w2', o])
+
+    def world():
+        return 2 if two and rng.random() < 0.4 else 1
+
+    def detach(slot, pred):
+        for c in on:
+            if slot in on[c] and pred(tyid(c)):
+                on[c].discard(slot)
+
+    def attach(j, e, c):
+        t = tyid(c)
+        detach((j, e), lambda u: u == t)
+        on.setdefault(c, set()).add((j, e))
+        if comps[c][0] == 'k':
+            if enabled[j]:
+                own[c] = (j, e)
+            else:
+                pend[j].append((c, e))
+
+    def enable(j, flag):
+        enabled[j] = flag
+        if flag:
+            for c, e in pend[j]:
+                own[c] = (j, e)
+            pend[j] = []
+
+    def waiting(k):
+        return any(c == k for j in (1, 2) for c, _ in pend[j])
+
+    def usable():
+        return [k for k in own if not waiting(k) and
+                (comps[k][0] == 'plain' or own[k] in on.get(k, ()))]
+
+    def present(slot):
+        return [c for c in on if slot in on[c]]
 
     def take(kind=None):
-        # now and then an instance that has been attached before (its on_add runs again)
-        if used and rng.random() < 0.15:
+        if used and rng.random() < 0.15:      # an instance attached before: on_add runs again
             cands = [c for c in used if kind is None or comps[c][0] == kind]
             if cands:
                 return rng.choice(cands)
@@ -158,10 +187,6 @@ def gen_ctrl(rng):
                 return unused.pop(i)
         return None
 
-    focus = [None]
-    script = []
-    plist = list(range(len(procs)))
-
     def take_type(ty):
         for i, c in enumerate(unused):
             if tyid(c) == ty:
@@ -169,123 +194,156 @@ def gen_ctrl(rng):
                 return unused.pop(i)
         return None
 
+    def short(k, sh, form='method'):
+        j, e = own[k]
+        emit(j, ['short', k, e, sh, form])
+
+    def types_at(slot):
+        return sorted({u for c in present(slot) for u in alltypes if issub(tyid(c), u)})
+
+    def read_op(k):
+        slot = own[k]
+        plain = comps[k][0] == 'plain'
+        tys = types_at(slot) or alltypes
+        t = rng.choice(tys) if rng.random() < 0.85 else rng.choice(alltypes)
+        z = rng.random()
+        form = rng.choice(['method', 'function'])
+        if z < 0.45 and not plain:
+            return ['refget', t], 'method'
+        if z < 0.58:
+            return ['sget', t], form
+        if z < 0.68:
+            return ['sgetall'], form
+        if z < 0.76 or plain:
+            return ['shas', t], form
+        pt = fpt if rng.random() < 0.8 else rng.randrange(npt)
+        return ['prefget', PT0 + rng.choice(panc[pt])], 'method'
+
+    def move(k):
+        """the controller goes to another entity, possibly of the other world"""
+        j, e = own[k]
+        j2 = (3 - j) if two and rng.random() < 0.7 else j
+        e2 = rng.choice(ents)
+        if (j2, e2) == (j, e):
+            return False
+        if rng.random() < 0.6 and (j, e) in on.get(k, ()):
+            t = tyid(k)                           # taken off where it is (exact type: certain)
+            detach((j, e), lambda u: u == t)
+            emit(j, ['remove', e, t])
+        attach(j2, e2, k)
+        emit(j2, ['add', e2, k])
+        return True
+
+    focus = [None]
+    script = []
+
     def focused():
-        """one op around the focus controller; None if nothing sensible can be done"""
-        nonlocal enabled
         k = focus[0]
-        if k not in where:
-            return None
-        if not enabled:
-            enabled = True
-            for x in delivered:
-                delivered[x] = True
-            return ['enable', True]
-        if not delivered.get(k):
-            return None
-        e = where[k]
-        here = [c for c in where if where[c] == e and c != k]
-        others = [c for c in here if comps[c][0] == 'k' and delivered.get(c)]
-        if script:                                    # the rest of a read / move / read again
+        if k not in own:
+            return False
+        if waiting(k):
+            for j in (1, 2):
+                if any(c == k for c, _ in pend[j]):
+                    enable(j, True)
+                    emit(j, ['enable', True])
+                    return True
+        if own[k] not in on.get(k, ()):
+            j, e = world(), rng.choice(ents)      # put it somewhere again
+            cs = [k]
+            c = take('c')
+            if c is not None:
+                cs.append(c)
+            for c in cs:
+                attach(j, e, c)
+            emit(j, ['create', e, cs])
+            return True
+        j, e = own[k]
+        slot = (j, e)
+        if script:
             step = script.pop(0)
-            if step[0] == 'move':
-                attach(step[1], k)
-                return ['add', step[1], k]
-            return ['short', k, e, step[1], step[2]]
+            if step == 'move':
+                return move(k)
+            short(k, step[0], step[1])
+            return True
+        here = [c for c in present(slot) if c != k]
+        others = [c for c in here if c in usable() and own.get(c) == slot]
         q = rng.random()
-        if q < 0.42:                                  # read again
-            tys = sorted({u for c in here for u in alltypes if issub(tyid(c), u)}) or alltypes
-            t = rng.choice(tys) if rng.random() < 0.85 else rng.choice(alltypes)
-            z = rng.random()
-            if z < 0.5:
-                return ['short', k, e, ['refget', t], 'method']
-            if z < 0.58:
-                return ['short', k, e, ['sget', t], rng.choice(['method', 'function'])]
-            if z < 0.66:
-                return ['short', k, e, ['sgetall'], rng.choice(['method', 'function'])]
-            if z < 0.72:
-                return ['short', k, e, ['shas', t], rng.choice(['method', 'function'])]
-            # the same processor reference, most of the time
-            pt = fpt if rng.random() < 0.8 else rng.randrange(npt)
-            return ['short', k, e, ['prefget', PT0 + rng.choice(panc[pt])], 'method']
-        if q < 0.70 and here:                         # replace a component of the same exact type
-            old = rng.choice(here)
-            new = take_type(tyid(old))
+        if q < 0.40:
+            sh, form = read_op(k)
+            short(k, sh, form)
+            return True
+        if q < 0.66 and here:                     # replace a component of the same exact type
+            new = take_type(tyid(rng.choice(here)))
             if new is None:
-                return None
-            attach(e, new)
+                return False
             z = rng.random()
             if z < 0.4:
-                return ['add', e, new]
-            if z < 0.7 and others:
-                return ['short', rng.choice(others), e, ['sadd', new], 'method']
-            return ['short', k, e, ['sadd', new], rng.choice(['method', 'function'])]
-        if q < 0.78 and here:                         # remove behind its back
+                attach(j, e, new)
+                emit(j, ['add', e, new])
+            elif z < 0.7 and others:
+                k2 = rng.choice(others)
+                attach(j, e, new)
+                short(k2, ['sadd', new])
+            else:
+                attach(j, e, new)
+                short(k, ['sadd', new], rng.choice(['method', 'function']))
+            return True
+        if q < 0.74 and here:                     # remove behind its back
             c0 = rng.choice(here)
             t = rng.choice([u for u in alltypes if issub(tyid(c0), u)] or alltypes)
-            detach_type(e, lambda u: issub(u, t))
-            if k not in where:
-                return ['remove', e, t]
-            if others and rng.random() < 0.4:
-                k2 = rng.choice(others)
-                if k2 in where:
-                    return ['short', k2, e, ['sremove', t], 'method']
-            return ['remove', e, t]
-        if q < 0.84:                                  # another type joins
+            k2 = rng.choice(others) if others and rng.random() < 0.4 else None
+            detach(slot, lambda u: issub(u, t))
+            if k2 is not None and slot in on.get(k2, ()):
+                short(k2, ['sremove', t])
+            else:
+                emit(j, ['remove', e, t])
+            return True
+        if q < 0.80:                              # another type joins
             new = take('c')
             if new is None:
-                return None
-            attach(e, new)
-            return ['add', e, new]
-        if q < 0.90:                                  # processors change on the world
+                return False
+            attach(j, e, new)
+            emit(j, ['add', e, new])
+            return True
+        if q < 0.88:                              # processors change on that world
+            if rng.random() < 0.35 and comps[k][0] != 'plain':
+                p = rng.choice(plist)
+                sups = [PT0 + x for x in panc[procs[p]]]
+                strict = [t for t in sups if t != PT0 + procs[p]]
+                short(k, ['prefset', rng.choice(strict or sups), p])
+                return True
             z = rng.random()
             same = [p for p in plist if procs[p] == fpt]
-            if rng.random() < 0.35:                   # assigned through a reference of a supertype
-                p = rng.choice(plist)
-                sups = [PT0 + j for j in panc[procs[p]]]
-                strict = [t for t in sups if t != PT0 + procs[p]]
-                return ['short', k, e, ['prefset', rng.choice(strict or sups), p], 'method']
             if z < 0.55 and same:
-                return ['addproc', rng.choice(same)]  # replaces the one of that exact type
-            if z < 0.8:
-                return ['addproc', rng.choice(plist)]
-            return ['remproc', PT0 + (fpt if rng.random() < 0.6 else rng.randrange(npt))]
-        if q < 0.97 and len(ents) > 1:                # the controller moves to another entity
-            e2 = rng.choice([x for x in ents if x != e])
-            tys = sorted({u for c in here for u in alltypes if issub(tyid(c), u)}) or alltypes
-            t = rng.choice(tys)
-            sh = rng.choice([['shas', t], ['sget', t], ['sgetall'], ['refget', t]])
-            form = rng.choice(['method', 'function']) if sh[0] != 'refget' else 'method'
-            script.extend([['move', e2], ['read', sh, form]])
-            return ['short', k, e, sh, form]
-        detach_type(e, lambda u: True)                # the entity is deleted and built anew
-        pending.discard(e)
-        return ['delete', e, True]
+                emit(j, ['addproc', rng.choice(same)])
+            elif z < 0.8:
+                emit(j, ['addproc', rng.choice(plist)])
+            else:
+                emit(j, ['remproc', PT0 + (fpt if rng.random() < 0.6 else rng.randrange(npt))])
+            return True
+        if q < 0.97 and (len(ents) > 1 or two):   # read, move, read again
+            sh, form = read_op(k)
+            script.extend(['move', (sh, form)])
+            short(k, sh, form)
+            return True
+        detach(slot, lambda u: True)              # the entity is deleted
+        pendel.discard(slot)
+        emit(j, ['delete', e, True])
+        return True
 
     for _ in range(nops):
         r = rng.random()
-        ctrls = [k for k in where if comps[k][0] in ('k',) and delivered.get(k)]
-        free = [k for k in delivered if comps[k][0] == 'plain' and delivered[k]]
+        ctrls = [k for k in usable() if comps[k][0] == 'k']
+        free = [k for k in usable() if comps[k][0] == 'plain']
         if focus_mode and focus[0] is None and ctrls:
             focus[0] = rng.choice(ctrls)
         if focus_mode and focus[0] is not None and rng.random() < 0.7:
-            if focus[0] not in where:                 # deleted / removed: attach it again
-                e = rng.choice(ents)
-                cs = [focus[0]]
-                c = take('c')
-                if c is not None:
-                    cs.append(c)
-                for c in cs:
-                    attach(e, c)
-                ops.append(['create', e, cs])
+            if focused():
                 continue
-            o = focused()
-            if o is not None:
-                ops.append(o)
-                continue
-        if r < 0.18 or not where:
+        j = world()
+        if r < 0.18 or not on:
             e = rng.choice(ents)
-            cs = []
-            seen = set()
+            cs, seen = [], set()
             for _ in range(rng.randint(1, 3)):
                 c = take('k' if rng.random() < 0.6 else None)
                 if c is None or tyid(c) in seen or c in cs:
@@ -295,12 +353,13 @@ def gen_ctrl(rng):
             if not cs:
                 continue
             for c in cs:
-                attach(e, c)
-            ops.append(['create', e, cs])
-        elif r < 0.62 and (ctrls or free):
-            pick_free = free and (not ctrls or rng.random() < 0.15)
-            k = rng.choice(free if pick_free else ctrls)
-            e = where[k] if not pick_free else delivered_ent[k]
+                attach(j, e, c)
+            emit(j, ['create', e, cs])
+        elif r < 0.60 and (ctrls or free):
+            k = rng.choice(free) if free and (not ctrls or rng.random() < 0.15) else \
+                rng.choice(ctrls)
+            kj, e = own[k]
+            slot = own[k]
             plain = comps[k][0] == 'plain'
             form = rng.choice(['method', 'function'])
             q = rng.random()
@@ -311,83 +370,92 @@ def gen_ctrl(rng):
                     continue
                 if not plain and rng.random() < 0.4:
                     sups = [u for u in alltypes if issub(tyid(c), u)]
-                    s = ['refset', rng.choice(sups), c]
+                    sh, form = ['refset', rng.choice(sups), c], 'method'
                 else:
-                    s = ['sadd', c]
-                attach(e, c)
+                    sh = ['sadd', c]
+                attach(kj, e, c)
             elif q < 0.34:
-                s = ['sremove', t] if plain or rng.random() < 0.6 else ['refdel', t]
-                detach_type(e, lambda u: issub(u, t))
+                sh = ['sremove', t]
+                if not plain and rng.random() < 0.4:
+                    sh, form = ['refdel', t], 'method'
+                detach(slot, lambda u: issub(u, t))
             elif q < 0.44:
-                s = ['shas', t]
+                sh = ['shas', t]
             elif q < 0.58:
-                s = ['sget', t] if plain or rng.random() < 0.5 else ['refget', t]
+                sh = ['sget', t]
+                if not plain and rng.random() < 0.5:
+                    sh, form = ['refget', t], 'method'
             elif q < 0.68:
-                s = ['sgetall']
-            elif q < 0.80 and any(v == e for v in where.values()):
-                s = ['sdelete']
-                pending.add(e)
+                sh = ['sgetall']
+            elif q < 0.80 and present(slot):
+                sh = ['sdelete']
+                pendel.add(slot)
             elif plain:
-                s = ['sgetall']
+                sh = ['sgetall']
             elif q < 0.87:
-                s = ['prefget', PT0 + rng.randrange(npt)]
+                sh, form = ['prefget', PT0 + rng.randrange(npt)], 'method'
             elif q < 0.95:
                 p = rng.randrange(len(procs))
-                sups = [PT0 + j for j in panc[procs[p]]]
-                strict = [t for t in sups if t != PT0 + procs[p]]
-                s = ['prefset', rng.choice(strict if strict and rng.random() < 0.7 else sups), p]
+                sups = [PT0 + x for x in panc[procs[p]]]
+                strict = [x for x in sups if x != PT0 + procs[p]]
+                sh = ['prefset', rng.choice(strict if strict and rng.random() < 0.7 else sups), p]
+                form = 'method'
             else:
-                s = ['prefdel', PT0 + rng.randrange(npt)]
-            ops.append(['short', k, e, s, form])
-        elif r < 0.68:
+                sh, form = ['prefdel', PT0 + rng.randrange(npt)], 'method'
+            emit(kj, ['short', k, e, sh, form])
+        elif r < 0.64 and ctrls and (two or len(ents) > 1):
+            k = rng.choice(ctrls)
+            sh, form = read_op(k)
+            short(k, sh, form)
+            if move(k) and not waiting(k):
+                short(k, sh, form)
+        elif r < 0.69:
             c = take()
             if c is None:
                 continue
             e = rng.choice(ents)
-            attach(e, c)
-            ops.append(['add', e, c])
-        elif r < 0.73:
+            attach(j, e, c)
+            emit(j, ['add', e, c])
+        elif r < 0.74:
             e = rng.choice(ents)
             t = rng.choice(alltypes)
-            detach_type(e, lambda u: issub(u, t))
-            ops.append(['remove', e, t])
-        elif r < 0.77:
-            ops.append([rng.choice(['has', 'get']), rng.choice(ents), rng.choice(alltypes)])
-        elif r < 0.80:
+            detach((j, e), lambda u: issub(u, t))
+            emit(j, ['remove', e, t])
+        elif r < 0.78:
+            emit(j, [rng.choice(['has', 'get']), rng.choice(ents), rng.choice(alltypes)])
+        elif r < 0.81:
             e = rng.choice(ents)
             if rng.random() < 0.5:
-                detach_type(e, lambda u: True)
-                ops.append(['delete', e, True])
-            elif any(v == e for v in where.values()):
-                pending.add(e)
-                ops.append(['delete', e, False])
+                detach((j, e), lambda u: True)
+                pendel.discard((j, e))
+                emit(j, ['delete', e, True])
+            elif present((j, e)):
+                pendel.add((j, e))
+                emit(j, ['delete', e, False])
         elif r < 0.88:
-            for e in pending:
-                detach_type(e, lambda u: True)
-            pending.clear()
-            ops.append(['process', rng.choice(DTS)])
+            for slot in [x for x in pendel if x[0] == j]:
+                detach(slot, lambda u: True)
+                pendel.discard(slot)
+            emit(j, ['process', rng.choice(DTS)])
         elif r < 0.94:
-            enabled = rng.random() < 0.65
-            if enabled:
-                for k in delivered:
-                    delivered[k] = True
-            ops.append(['enable', enabled])
+            flag = rng.random() < 0.65
+            enable(j, flag)
+            emit(j, ['enable', flag])
         elif r < 0.97 and plain_unused:
             k = plain_unused.pop()
             e = rng.choice(ents)
-            delivered[k] = True
-            delivered_ent[k] = e
-            ops.append(['mk', k, e])
+            own[k] = (j, e)
+            emit(j, ['mk', k, e])
         else:
             q = rng.random()
             if q < 0.6:
-                ops.append(['addproc', rng.randrange(len(procs))])
+                emit(j, ['addproc', rng.randrange(len(procs))])
             elif q < 0.8:
-                ops.append(['getproc', PT0 + rng.randrange(npt)])
+                emit(j, ['getproc', PT0 + rng.randrange(npt)])
             else:
-                ops.append(['remproc', PT0 + rng.randrange(npt)])
+                emit(j, ['remproc', PT0 + rng.randrange(npt)])
     return dict(kind='ctrl', cbases=cb, kbases=kb, pbases=pb, pprio=pprio, piprio=piprio,
-                comps=comps, procs=procs, ents=ents, ops=ops)
+                peq=peq, pfalsy=pfalsy, comps=comps, procs=procs, ents=ents, ops=ops)
 
 
 def gen_proto(rng):
